@@ -525,8 +525,19 @@ func (x *run) checkContains(k string) error {
 	return nil
 }
 
+// lookAround: between receiving a listing and reading it the caller asks the trie other things (Size, Get, Contains,
+// LongestPrefix - not Keys/StartsWith, which are documented to reuse the listing's queue): the listing stays what it was.
+func (x *run) lookAround(p string) {
+	x.t.Size()
+	x.t.Get(p)
+	x.t.Contains(p + "\x00")
+	x.t.LongestPrefix(p + "zz")
+	x.t.Get("")
+}
+
 func (x *run) checkStartsWith(p string) error {
 	q, err := x.t.StartsWith(p)
+	x.lookAround(p)
 	got, overflow := x.drain(q)
 	if p == "" {
 		// Rejected: only the error is specified, not what the queue holds.
@@ -568,6 +579,7 @@ func (x *run) checkLongestPrefix(qs string) error {
 
 func (x *run) checkKeys() error {
 	q, err := x.t.Keys()
+	x.lookAround("")
 	got, overflow := x.drain(q)
 	want := x.keys()
 	if overflow {
@@ -922,7 +934,7 @@ var fixedCases = []Case{
 
 const queryRule = "After the calls: Size, Keys, Get/Contains/StartsWith/LongestPrefix of \"\" (absent / rejected), then Get, Contains, StartsWith (queue drained) and LongestPrefix " +
 	"for every query of the sweep and every derived query (each stored key, its proper prefixes, the key extended by 1-2 bytes and with its last byte replaced), then Size and Keys again; " +
-	"oracle = Go map + sorted key list. The result queue is drained right after each call, except that the random generators leave the result of one call in seven unread or read only its first one or two items " +
+	"oracle = Go map + sorted key list. The result queue is drained right after each call - after Size, Get, Contains and LongestPrefix have been asked in between, which must leave the listing alone - except that the random generators leave the result of one call in seven unread or read only its first one or two items " +
 	"(Keys-undrained, StartsWith-undrained; the items read must be the head of the right answer): the next Keys/StartsWith must still return exactly its own keys. Put(\"\") is never generated; the value returned next to ok=false and the queue/string returned next to a " +
 	"rejection error are not asserted, an error is only forbidden when the expected answer is non-empty. " +
 	"Non-trivial = the stored keys contain a key that is a proper prefix of another, or a byte >= 0x80, or a query was an unstored proper prefix or an unstored extension of a stored key. " +
